@@ -86,6 +86,16 @@ def rec_eq(g1, g2) -> dict:
         fcde = _g(a.filter_group_cde().as_tupple())
     except Exception:  # noqa: BLE001
         fcde = [0] * 6
+    # equal groups reached by different routes (tuple, reduced string, six-part string): equal objects, equal hashes
+    routes = []
+    try:
+        routes = [Obis(_tup(g2)), Obis.from_string(s2)] if str_ok else [Obis(_tup(g2))]
+        if str_ok and all(x != NONE for x in g2):
+            routes.append(Obis.from_string(".".join(str(x) for x in g2)))
+    except Exception:  # noqa: BLE001
+        routes = []
+    route_eq = all((a == r) == (g1 == g2) and (r == a) == (g1 == g2) for r in routes)
+    route_hash = all(hash(a) == hash(r) for r in routes) if g1 == g2 else True
     eqs = []
     for prep in (lambda c, d: hash(c), lambda c, d: hash(d), lambda c, d: (str(c), repr(d)), lambda c, d: (c.to_reduced_str(), d.as_tupple()),
                  lambda c, d: {c: 1}, lambda c, d: (c == d, hash(c))):
@@ -95,7 +105,8 @@ def rec_eq(g1, g2) -> dict:
             eqs += [bool(c == d), bool(d == c), not bool(c != d), d in [c], d in {c}]
         except Exception:  # noqa: BLE001
             eqs.append(g1 != g2)          # an exception is never the right answer: recorded as the wrong one
-    return {"id": stable_id("oe", g1, g2), "canary": "", "kind": "eq", "g1": g1, "g2": g2, "eq": bool(a == b), "hash_eq": hash(a) == hash(b),
+    return {"id": stable_id("oe", g1, g2), "canary": "", "kind": "eq", "g1": g1, "g2": g2, "eq": bool(a == b) if route_eq else (g1 != g2),
+            "hash_eq": (hash(a) == hash(b)) and route_hash,
             "eq_str": eq_str, "str_ok": str_ok, "cde": list(cde.encode()), "eqs": eqs, "fcde": fcde}
 
 
